@@ -4,6 +4,8 @@ import Proofs.C16.Pedersen
 import Proofs.C16.SilentPaymentsComplete
 import Proofs.E2E.C16
 import Proofs.C16.Ecies
+import Proofs.C16.EllSwift
+import Proofs.C16.EllSwiftToy
 /-!
 # C16 — property theorems only (see DESIGN.md §3 C16).
 
@@ -430,5 +432,54 @@ example : diffieHellman (EC.ops toyC) (fun b => .ok b) 5 ((EC.ops toyC).mul 3 to
 example : inputHash (EC.ops toyC) toyH [1] (32, 40) = .ok 21 ∧
     ∀ k, outputTweak (EC.ops toyC) toyH ((EC.ops toyC).mul (21 * 8 % 31) ((EC.ops toyC).mul 7 toyC.G)) k
       = outputTweak (EC.ops toyC) toyH ((EC.ops toyC).mul 7 ((EC.ops toyC).mul 21 (32, 40))) k := toy_sp_agree
+
+/-! ## ElligatorSwift (BIP324, `ecc/ellswift.py`) -/
+
+/-- **T6 (field identities).** In any field with `c² = −3` (characteristic ≠ 2, `c ≠ 0`): if `(v, w)` satisfy
+the relation both branches of `_xswiftec_inv_var` establish, `w²·(u² + uv + v²) = −(u³ + b)`, and
+`t = w·(u(1 − c)/2 + v)` is what the inverse answers (cases with `1 − √−3`; the sign of `w` is free), then
+the forward map's `X = (u³+b−t²)/(2t)`, `Y = (X+t)/(c·u)` give `Y = −w/2`, first candidate
+`u + 4Y² = u + w²` and third candidate `(X/Y − u)/2 = v`. -/
+theorem ellswift_candidates_minus {F : Type} [Field F] (u v w c b t X Y : F) (hc : c ^ 2 = -3)
+    (h2 : (2 : F) ≠ 0) (hc0 : c ≠ 0) (hu : u ≠ 0)
+    (hs : w ^ 2 * (u ^ 2 + u * v + v ^ 2) = -(u ^ 3 + b))
+    (ht : 2 * t = w * (u * (1 - c) + 2 * v)) (ht0 : t ≠ 0)
+    (hX : X = (u ^ 3 + b - t ^ 2) / (2 * t)) (hY : Y = (X + t) / (c * u)) :
+    Y = -w / 2 ∧ u + 4 * Y * Y = u + w ^ 2 ∧ (Y ≠ 0 → (X / Y - u) / 2 = v) :=
+  Swift.candidates_minus u v w c b t X Y hc h2 hc0 hu hs ht ht0 hX hY
+
+/-- T6, the cases with `1 + √−3`: `Y = w/2`, first candidate `u + w²`, second candidate `(−X/Y − u)/2 = v`. -/
+theorem ellswift_candidates_plus {F : Type} [Field F] (u v w c b t X Y : F) (hc : c ^ 2 = -3)
+    (h2 : (2 : F) ≠ 0) (hc0 : c ≠ 0) (hu : u ≠ 0)
+    (hs : w ^ 2 * (u ^ 2 + u * v + v ^ 2) = -(u ^ 3 + b))
+    (ht : 2 * t = w * (u * (1 + c) + 2 * v)) (ht0 : t ≠ 0)
+    (hX : X = (u ^ 3 + b - t ^ 2) / (2 * t)) (hY : Y = (X + t) / (c * u)) :
+    Y = w / 2 ∧ u + 4 * Y * Y = u + w ^ 2 ∧ (Y ≠ 0 → (-X / Y - u) / 2 = v) :=
+  Swift.candidates_plus u v w c b t X Y hc h2 hc0 hu hs ht ht0 hX hY
+
+/-- T6: the second branch of the inverse (`s = x − u`, `r² = −s(4(u³+b) + 3su²)`, `2v = −u + r/s`) lands
+on the same relation, so with `w² = s` the first candidate `u + w²` is `x`. -/
+theorem ellswift_branch2_relation {F : Type} [Field F] (u v s r b : F) (h2 : (2 : F) ≠ 0) (hs0 : s ≠ 0)
+    (hr : r ^ 2 = -s * (4 * (u ^ 3 + b) + 3 * s * u * u)) (hv : 2 * v = -u + r / s) :
+    s * (u ^ 2 + u * v + v ^ 2) = -(u ^ 3 + b) :=
+  Swift.branch2_relation u v s r b h2 hs0 hr hv
+
+/-- **T6 (the executable model, exhaustively on small curves).** On `y² = x³ + 2` over `F₁₉` and on
+`y² = x³ + 7` over `F₄₃` (`p ≡ 3 mod 4`, no point of order 2): for EVERY x-coordinate `x`, every `u ≠ 0`
+and every case `c ∈ 0..7`, whenever `xswiftec_inv x u c` is defined, `xswiftec (u, ·)` of it is `x` —
+candidate selection included (300 defined triples on the first curve).
+PARTIAL with respect to "for all p ≡ 3 mod 4": the bridge from the integer model modulo `p` to the field
+identities above (and the guards that make `x` the FIRST valid candidate) is proved only by this
+exhaustive evaluation; for secp256k1 it rests on the `ell.*` correspondence streams and the
+`ellswift.roundtrip` oracle. (On curves where `−b` is a cube — a point of order 2 exists — the identity
+FAILS for `u³ + b = 0`; btclib's map is only offered where no such `u` exists.) -/
+theorem ellswift_roundtrip_small_curves_partial :
+    Swift.allOk (Swift.toy 19 2) 19 = true ∧ Swift.allOk (Swift.toy 43 7) 43 = true
+      ∧ Swift.defined (Swift.toy 19 2) 19 = 300 :=
+  ⟨Swift.roundtrip_p19_b2, Swift.roundtrip_p43_b7, Swift.defined_p19_b2⟩
+
+/-- the field hypotheses are satisfiable: `ZMod`-free witness in ℚ(√−3) is not needed — in `ZMod 7`,
+`c = 2` has `c² = 4 = −3` -/
+example : ((2 : ZMod 7) ^ 2 = -3) ∧ ((2 : ZMod 7) ≠ 0) := by decide
 
 end Props.C16
